@@ -249,7 +249,11 @@ func c11(c *Ctx) {
 				// Git's own value for the key, read off the lines themselves
 				own, ok := "", false
 				for _, l := range cc.Sources[1] {
-					if kv := strings.SplitN(l, "=", 2); len(kv) == 2 && strings.ToLower(kv[0]) == key {
+					kv := strings.SplitN(l, "=", 2)
+					if len(kv) == 1 {
+						kv = append(kv, "true") // a value-less key is the boolean true
+					}
+					if strings.ToLower(kv[0]) == key {
 						own, ok = kv[1], true
 					}
 				}
